@@ -412,13 +412,13 @@ Lemma alt_field_header last id long ct ty r rcx :
     Ok ((ty, Some id),
         mkS r (mkR id (r_stack rcx)
                    (match ct with CBooleanTrue => Some true | CBooleanFalse => Some false | _ => r_pbool rcx end)
-                   (r_pfield rcx))).
+                   false)).
 Proof.
   intros Hid Hl Hlast Ht Hns. pose proof (ctype_code_range ct) as Hc. unfold s_fhdr.
   destruct (negb long && (0 <? id - last) && (id - last <=? 15)) eqn:E.
   - (* short form *)
     assert (Hd : 0 < id - last <= 15) by lia.
-    cbn [app r_field_begin]. rewrite r_byte_rt by lia. cbn [bind].
+    cbn [app r_field_begin]. rewrite clear_pfield_eq. rewrite r_byte_rt by lia. cbn [bind].
     replace (((id - last) * 16 + ctype_code ct) mod 16) with (ctype_code ct) by lia.
     replace (((id - last) * 16 + ctype_code ct) / 16) with (id - last) by lia.
     replace (negb (id - last =? 0)) with true by lia.
@@ -427,7 +427,7 @@ Proof.
       try (vm_compute ctype_of_code; cbn [bind ttype_of_ctype]);
       rewrite Hlast; replace (last + (id - last)) with id by lia; rewrite wrap_s16_id by auto; reflexivity.
   - (* long form *)
-    cbn [app r_field_begin]. rewrite r_byte_rt by lia. cbn [bind].
+    cbn [app r_field_begin]. rewrite clear_pfield_eq. rewrite r_byte_rt by lia. cbn [bind].
     replace (ctype_code ct mod 16) with (ctype_code ct) by lia.
     replace (ctype_code ct / 16) with 0 by lia.
     destruct ct; cbn in Ht; inversion Ht; subst ty; try congruence;
